@@ -122,6 +122,9 @@ func witKind(t types.Type, depth int) string {
 				}
 			}
 		}
+		if isEmptyInterface(u.Elem()) && depth == 0 {
+			return "ifaces" // the arguments of a sanitizer: strings and safehtml values (and pointers to them)
+		}
 	case *types.Struct:
 		for i := 0; i < u.NumFields(); i++ {
 			if witKind(u.Field(i).Type(), depth+1) == "" {
@@ -155,7 +158,7 @@ func structOf(t types.Type) (*types.Struct, string) {
 
 func (fx *FuncCtx) witParams() ([]witParam, bool) {
 	sig := fx.obj.Type().(*types.Signature)
-	if sig.Variadic() {
+	if sig.Variadic() && witKind(sig.Params().At(sig.Params().Len()-1).Type(), 0) != "ifaces" {
 		return nil, false
 	}
 	var ps []witParam
@@ -174,7 +177,7 @@ func (fx *FuncCtx) witParams() ([]witParam, bool) {
 		ps = append(ps, witParam{name: v.Name(), t: v.Type()})
 	}
 	for i := 0; i < sig.Results().Len(); i++ {
-		if witKind(sig.Results().At(i).Type(), 0) == "" {
+		if k := witKind(sig.Results().At(i).Type(), 0); k == "" || k == "ifaces" {
 			return nil, false
 		}
 	}
@@ -220,6 +223,17 @@ func (fx *FuncCtx) concreteVal(t types.Type, c cval) Val {
 			} else {
 				v.F[f.Name()] = fx.zero(f.Type())
 			}
+		}
+		return v
+	case "ifaces":
+		v := VIfaces{N: fmt.Sprintf("%d", len(c.F)), Tag: "((as const (Array Int Int)) 0)", B: fx.constArrArr(), O: "((as const (Array Int Int)) 0)", L: "((as const (Array Int Int)) 0)"}
+		for i, e := range c.F {
+			sv := fx.strLit(e.str())
+			v = VIfaces{N: v.N,
+				Tag: fx.name(sortArr, "wit", fmt.Sprintf("(store %s %d %s)", v.Tag, i, numeral(e.I))),
+				B:   fx.name(sortArrArr, "wib", fmt.Sprintf("(store %s %d %s)", v.B, i, sv.B)),
+				O:   fx.name(sortArr, "wio", fmt.Sprintf("(store %s %d %s)", v.O, i, sv.O)),
+				L:   fx.name(sortArr, "wil", fmt.Sprintf("(store %s %d %s)", v.L, i, sv.L))}
 		}
 		return v
 	case "strs":
@@ -292,6 +306,12 @@ func (g *goImports) goExpr(t types.Type, c cval) string {
 			fs = append(fs, st.Field(i).Name()+": "+g.goExpr(st.Field(i).Type(), c.F[i]))
 		}
 		return ts + "{" + strings.Join(fs, ", ") + "}"
+	case "ifaces":
+		var es []string
+		for _, e := range c.F {
+			es = append(es, g.ifaceExpr(e))
+		}
+		return "[]interface{}{" + strings.Join(es, ", ") + "}"
 	case "strs":
 		sl := t.Underlying().(*types.Slice)
 		var es []string
@@ -313,6 +333,35 @@ func (g *goImports) goExpr(t types.Type, c cval) string {
 		return ts + "{" + strings.Join(es, ", ") + "}"
 	}
 	return "nil"
+}
+
+var tagTypeNames = map[int]string{tagHTML: "HTML", tagScript: "Script", tagStyle: "Style", tagStyleSheet: "StyleSheet", tagURL: "URL",
+	tagTrustedResourceURL: "TrustedResourceURL", tagIdentifier: "Identifier"}
+
+// ifaceExpr writes one sanitizer argument: a string, a safehtml value made with the unchecked
+// conversions (the only way to give it arbitrary contents) or a pointer to one of these.
+func (g *goImports) ifaceExpr(e cval) string {
+	tag, _ := strconv.Atoi(e.I)
+	ptr := false
+	if tag > tagPtrBase && tag < tagPtrBase+10 {
+		ptr, tag = true, tag-tagPtrBase
+	}
+	q := strconv.Quote(e.str())
+	var val, typ string
+	switch {
+	case tag == tagString:
+		val, typ = q, "string"
+	case tagTypeNames[tag] != "":
+		g.used["github.com/google/safehtml/uncheckedconversions"] = "uncheckedconversions"
+		g.used["github.com/google/safehtml"] = "safehtml"
+		val, typ = "uncheckedconversions."+tagTypeNames[tag]+"FromStringKnownToSatisfyTypeContract("+q+")", "safehtml."+tagTypeNames[tag]
+	default:
+		return "nil"
+	}
+	if ptr {
+		return "func() *" + typ + " { v := " + val + "; return &v }()"
+	}
+	return val
 }
 
 func showCval(t types.Type, c cval) string {
@@ -353,6 +402,8 @@ func zeroCval(t types.Type) cval {
 		return c
 	case "strs":
 		return cval{K: "strs", Nil: true}
+	case "ifaces":
+		return cval{K: "ifaces"}
 	}
 	return cval{K: "opaque"}
 }
@@ -629,6 +680,23 @@ func (fx *FuncCtx) candidatesFor(t types.Type, alpha []string, frags []string, l
 			}
 		}
 		return out
+	case "ifaces":
+		// one argument of every kind with short contents, then two arguments
+		ss := strCandidates(alpha, frags, 14)
+		tags := []int{tagString, tagHTML, tagScript, tagStyle, tagStyleSheet, tagURL, tagTrustedResourceURL, tagIdentifier, tagPtrBase + tagString, tagPtrBase + tagHTML, tagPtrBase + tagURL}
+		one := func(tag int, s string) cval {
+			return cval{K: "iface", I: fmt.Sprint(tag), S: base64.StdEncoding.EncodeToString([]byte(s))}
+		}
+		out := []cval{{K: "ifaces"}}
+		for _, s := range ss {
+			for _, tg := range tags {
+				out = append(out, cval{K: "ifaces", F: []cval{one(tg, s)}})
+			}
+		}
+		for _, tg := range tags[:4] {
+			out = append(out, cval{K: "ifaces", F: []cval{one(tg, "a"), one(tagString, "b")}})
+		}
+		return out
 	case "strs":
 		out := []cval{{K: "strs", Nil: true}}
 		ss := strCandidates(alpha, frags, 30)
@@ -726,6 +794,19 @@ func (fx *FuncCtx) modelProbe(v Val, t types.Type, path string, probes *[]string
 		for i := 0; i < st.NumFields(); i++ {
 			fx.modelProbe(sv.F[st.Field(i).Name()], st.Field(i).Type(), path+"."+st.Field(i).Name(), probes, names)
 		}
+	case "ifaces":
+		xs, ok := v.(VIfaces)
+		if !ok {
+			return
+		}
+		add(xs.N, path+"#n")
+		for i := 0; i < 2; i++ {
+			add(fmt.Sprintf("(select %s %d)", xs.Tag, i), fmt.Sprintf("%s#%d#tag", path, i))
+			add(fmt.Sprintf("(select %s %d)", xs.L, i), fmt.Sprintf("%s#%d#len", path, i))
+			for j := 0; j < 12; j++ {
+				add(fmt.Sprintf("(select (select %s %d) (+ (select %s %d) %d))", xs.B, i, xs.O, i, j), fmt.Sprintf("%s#%d#%d", path, i, j))
+			}
+		}
 	case "strs":
 		xs, ok := v.(VStrs)
 		if !ok {
@@ -765,6 +846,34 @@ func modelCval(t types.Type, path string, vals map[string]int64) cval {
 		c := cval{K: "struct"}
 		for i := 0; i < st.NumFields(); i++ {
 			c.F = append(c.F, modelCval(st.Field(i).Type(), path+"."+st.Field(i).Name(), vals))
+		}
+		return c
+	case "ifaces":
+		n := vals[path+"#n"]
+		if n < 0 {
+			n = 0
+		}
+		if n > 2 {
+			n = 2
+		}
+		c := cval{K: "ifaces"}
+		for i := int64(0); i < n; i++ {
+			l := vals[fmt.Sprintf("%s#%d#len", path, i)]
+			if l < 0 {
+				l = 0
+			}
+			if l > 12 {
+				l = 12
+			}
+			var b []byte
+			for j := int64(0); j < l; j++ {
+				b = append(b, byte(vals[fmt.Sprintf("%s#%d#%d", path, i, j)]&0xff))
+			}
+			tag := vals[fmt.Sprintf("%s#%d#tag", path, i)]
+			if !(tag >= 1 && tag <= int64(tagIdentifier) || tag > tagPtrBase && tag <= tagPtrBase+int64(tagIdentifier)) {
+				tag = tagString
+			}
+			c.F = append(c.F, cval{K: "iface", I: fmt.Sprint(tag), S: base64.StdEncoding.EncodeToString(b)})
 		}
 		return c
 	case "strs":
@@ -998,6 +1107,9 @@ func (p *Prog) runCandidates(o checkOpts, fx *FuncCtx, ps []witParam, tuples [][
 			continue
 		}
 		args = append(args, fmt.Sprintf("in.P%d", i))
+	}
+	if sig.Variadic() && len(args) > 0 {
+		args[len(args)-1] += "..."
 	}
 	var rs, dumps []string
 	for i := 0; i < sig.Results().Len(); i++ {
